@@ -66,13 +66,14 @@ CHECKS["C20"] = (
     "runtime monitoring of cost: hook step counters + thread CPU time per call in child "
     "processes under RLIMIT_CPU, on shader families of growing call depth / type nesting, "
     "bounded by a polynomial in the naga IR size",
-    "53 families: call chains and diamonds (value and void calls, width 2-4, "
+    "59 families: call chains and diamonds (value and void calls, width 2-4, "
     "depth up to 64), calls buried in if/loop/continuing/switch, several entry points over one "
     "deep graph, fan-out, many call sites, struct towers (arity 2/3/8, with arrays), let-chain "
     "DAGs (plain and as call argument), control flow nested up to 24 deep (multi-selector "
     "switch, if/else, loop, continuing, block), long bodies, wide shaders, a formatter-on family "
     "above the pipe buffer, lattices (2-4 different helpers per level), diamonds from which no "
-    "variable is reachable, else-if chains of up to 100 arms, up to 300 functions "
+    "variable is reachable, pointer-parameter diamonds, array types nested up to 100 deep under "
+    "glam/nalgebra/bytemuck/encase, else-if chains of up to 100 arms, up to 300 functions "
     "before a deep diamond, chains of depth 256, override / const / alias chains, 'magnitude' "
     "families in which one number of the shader grows to its maximum at constant shader size, "
     "and an error-path family (sparse group indices up to 2^32-1): "
